@@ -182,7 +182,8 @@ private theorem exWF (c : SpecBundle) (hc : c.b.cfg.cc = asciiClass) (hP : c.b.c
       wf := by
         intro a ha _
         rw [hP, hasts]
-        rcases hsub a ha with rfl | rfl <;> decide }
+        rcases hsub a ha with rfl | rfl <;> decide
+      noRolling := by intro a _; rw [happ]; simp only [exCfg]; split <;> rfl }
   paths := hinj
 
 example : BundleWF exB0 :=
@@ -249,6 +250,10 @@ example : SysWF exCfgJ exAsts where
     rcases ha with rfl | rfl
     · exact absurd hk (by decide)
     · decide
+  noRolling := by
+    intro a _
+    simp only [exCfgJ, exCfg]
+    split <;> (try split) <;> rfl
 
 /-- test on a sample: the line one delivery of the first record adds to `f` -/
 example : specLine exCfgJ exAsts exF (exRecords.getD 0 ⟨⟨1, [], [], none, none, none⟩, exEnv⟩) =
